@@ -831,6 +831,13 @@ fn main() {
                 w
             };
             r.world(&seeded("nft-consecutive-item-edge", vec![31, 32, 33], tier.pick(vec![1], vec![0, 1])), &Bounds::new(3, tier.pick(10, 30)));
+            {
+                // a maximal batch that does NOT start on a bucket boundary (spans 11 buckets): a
+                // small or bucket-edge first batch, then batch_mint(32000)
+                let mut w = seeded("nft-consecutive-unaligned-max-batch", vec![100, 3199, 1], vec![1]);
+                w.batch_sizes = vec![32000];
+                r.world(&w, &Bounds::new(tier.pick(1, 2), tier.pick(6, 40)));
+            }
             if th {
                 r.world(&seeded("nft-consecutive-bucket-edge", vec![3199, 3200, 3201], vec![0, 1]), &Bounds::new(3, 40));
                 r.world(&seeded("nft-consecutive-max-batch", vec![32000], vec![0, 1]), &Bounds::new(2, 10));
